@@ -31,7 +31,8 @@ package compiler
 //@   pure
 //@   ensures ret == resType(recv)
 // a constant wraps a machine value, never another resource descriptor
-//@ typeinv program.Constant: !isRes(self.Inner) // C12 C08
+// (nor a monetary without an amount: those only arise from balance() variables)
+//@ typeinv program.Constant: !isRes(self.Inner) && !(typeis(self.Inner, "machine.Monetary") && as(self.Inner, "machine.Monetary").Amount == nil) // C12 C08
 
 // ---- typing rules of the instructions (vm/machine.go tick)
 // A slot of tstack is ty + 16*(k+1): ty is the machine.Type, k the number the slot is statically known to hold
